@@ -13,6 +13,17 @@ CORE = {
  'C08': "get_active_task() inside a task is that task (also after nested synchronous calls), and after any outcome the scheduler keeps no task, no active task and no pending batch; sequences of computations on one thread",
  'C20': "the trace (values, exceptions, batches and their items, context events) under any subset of the boolean debug options and any scripted clock equals the trace under the default options, in the pure-Python and the Cython-compiled build",
 }
+GAPS = {
+ 'C01': "",
+ 'C02': "clauses resting on the correspondence only (no theorem yet): 'uncaught failure becomes the task's own failure and value()'s exception' follows from C01_agree (property C01), 'tasks that do not depend on the failed future are unaffected' (C02_unaffected, in progress)",
+ 'C03': "clauses resting on the correspondence only (no theorem yet): start order of tasks yielded together, never-awaited tasks never start (C03_lazy_start, in progress), TERMINATION of every finite acyclic computation and the depth beyond the interpreter's recursion limit (needs the acyclicity invariant; checked by watchdog + chains of 50 000 tasks on the real code)",
+ 'C04': "",
+ 'C05': "every clause of the statement has a theorem (what the awaiting task receives is C02_received_trace)",
+ 'C06': "clauses resting on the correspondence only (no theorem yet): 'paused whenever a task it is not awaiting runs / whenever a batch is flushed while suspended' (the awaiting-chain characterisation of which contexts are active); proved: flag invariants, strict alternation per context, exit implies paused, NonAsyncContext failure on suspension",
+ 'C07': "clauses resting on the correspondence only (no theorem yet): global LIFO nesting across tasks, scoped reads equal sequential reads, restoration when the computation ends (all need the acyclicity / no-revisit invariant, in progress); proved: per-task save/restore (resume then pause in reverse restores every value, innermost override wins), exited contexts are paused",
+ 'C08': "clause resting on the correspondence only: 'the next computation behaves as on a fresh scheduler' (checked by sequences of computations); C08_active/C08_frames carry guardFired = false (a machine-checked counterexample shows the hypothesis is necessary: known finding)",
+ 'C20': "",
+}
 man = json.load(open('/verif/MANIFEST.json'))
 checks = {c['property_id']: c for c in man['checks']}
 for pid, what in CORE.items():
@@ -28,7 +39,7 @@ for pid, what in CORE.items():
      "level_claimed": {"category": "proof",
        "text": f"Lean 4 theorems about the small-step machine AsynqModel.Core.Machine (scheduler.py/async_task.py/batching.py/contexts.py as one transition function) for every reachable state = every program, configuration and flush order ({thms}); the machine is tied to the code on every run by interpreting thousands of generated task programs on the real scheduler and replaying them in the machine with the implementation's flush choices (event-by-event trace diff), and the property's observer (AsynqModel.Core.Spec: {what}) is evaluated on the implementation's trace alone",
        "design_ref": f"DESIGN.md section 5 {pid} and section 10"},
-     "level_note": "trusted: Lean kernel, propext/Classical.choice/Quot.sound, the hand-written machine (validated by the differential run), harness/corerun.py, CPython generator/with semantics, qcore; clauses of the observer that have no theorem yet are listed in DESIGN.md section 10 and rest on the correspondence only",
+     "level_note": "trusted: Lean kernel, propext/Classical.choice/Quot.sound, the hand-written machine (validated by the differential run), harness/corerun.py, CPython generator/with semantics, qcore; " + (GAPS.get(pid) or "clauses of the observer without a theorem rest on the correspondence only (DESIGN.md section 10)"),
      "technique": "Lean 4 invariants over all reachable machine states + model/implementation trace correspondence"}
 man['checks'] = sorted(checks.values(), key=lambda c: c['property_id'])
 claimed = {c['property_id'] for c in man['checks']}
